@@ -41,6 +41,12 @@ fn fixed(_tier: Tier) -> Vec<Vec<u8>> {
             }
         }
     }
+    // parents with a side of u32::MAX (and no pixels): arithmetic at the top of the range
+    for kind in [0u8, 1, 4, 6] {
+        for code in 0..4u8 {
+            v.push(vec![0xEE, kind, 200 + code, 0, 0xEE]);
+        }
+    }
     v
 }
 
@@ -66,7 +72,8 @@ const KIND_NAMES: [&str; 7] = [
 ];
 
 fn tagged_parent(pw: u32, ph: u32) -> Buf {
-    let n = pw as usize * ph as usize;
+    // one spare row behind the image (every constructor accepts a longer buffer); nothing may ever expose it
+    let n = (pw as u64 * ph as u64).min(1 << 20) as usize + pw.min(64) as usize;
     let mut b = Buf::new(n * 4);
     for i in 0..n {
         b.bytes_mut()[4 * i..4 * i + 4].copy_from_slice(&(i as i32).to_ne_bytes());
@@ -107,6 +114,26 @@ fn verify_view<V: ImageView<Pixel = I32>>(v: &V, pw: u32, l: u32, t: u32, w: u32
         // a view of width 0 exposes no pixels and may yield no rows at all
         if w > 0 && count != h - k {
             return Err(format!("iter_rows({}) yields {} rows instead of {}", k, count, h - k));
+        }
+    }
+    Ok(())
+}
+
+/// The mutable row iterator of an accepted view exposes exactly height-k rows of exactly `width` pixels.
+fn verify_rows_mut<V: fr::ImageViewMut<Pixel = I32>>(v: &mut V, w: u32, h: u32) -> Result<(), String> {
+    for k in 0..=h.min(3) {
+        let mut count = 0u32;
+        for row in v.iter_rows_mut(k) {
+            if row.len() != w as usize {
+                return Err(format!("iter_rows_mut({}) yields a row of {} pixels instead of {}", k, row.len(), w));
+            }
+            count += 1;
+            if count > h + 2 {
+                break;
+            }
+        }
+        if w > 0 && count != h - k {
+            return Err(format!("iter_rows_mut({}) yields {} rows instead of {}", k, count, h - k));
         }
     }
     Ok(())
@@ -158,12 +185,19 @@ fn try_rect(kind: u8, pw: u32, ph: u32, parent: &mut Buf, q: (u32, u32, u32, u32
             }
             2 => {
                 let p = TypedImage::<I32>::from_buffer(pw, ph, parent.bytes_mut()).map_err(|e| format!("{:?}", e))?;
-                let res = TypedCroppedImageMut::new(p, l, t, w, h).map(|v| verify_view(&v, pw, l, t, w, h));
+                let res = TypedCroppedImageMut::new(p, l, t, w, h).map(|mut v| {
+                    verify_view(&v, pw, l, t, w, h)?;
+                    verify_rows_mut(&mut v, w, h)
+                });
                 judge_rect(pw, ph, q, res)
             }
             3 => {
                 let mut p = TypedImage::<I32>::from_buffer(pw, ph, parent.bytes_mut()).map_err(|e| format!("{:?}", e))?;
-                let res = TypedCroppedImageMut::from_ref(&mut p, l, t, w, h).map(|v| verify_view(&v, pw, l, t, w, h));
+                verify_rows_mut(&mut p, pw, ph)?;
+                let res = TypedCroppedImageMut::from_ref(&mut p, l, t, w, h).map(|mut v| {
+                    verify_view(&v, pw, l, t, w, h)?;
+                    verify_rows_mut(&mut v, w, h)
+                });
                 judge_rect(pw, ph, q, res)
             }
             4 => {
@@ -530,7 +564,12 @@ fn call_ctor(ctor: u8, pt: PixelType, w: u32, h: u32, buf: &mut [u8]) -> CtorRes
         };
     }
     match ctor {
-        0 => be(Image::from_vec_u8(w, h, buf.to_vec(), pt).map(|_| ())),
+        0 => {
+            // a Vec whose capacity exceeds its length: only the length counts
+            let mut v = Vec::with_capacity(buf.len() + 4096);
+            v.extend_from_slice(buf);
+            be(Image::from_vec_u8(w, h, v, pt).map(|_| ()))
+        }
         1 => be(Image::from_slice_u8(w, h, buf, pt).map(|_| ())),
         2 => be(ImageRef::new(w, h, buf, pt).map(|_| ())),
         _ => match pt {
@@ -652,6 +691,10 @@ fn pixels_len(pt: PixelType, bytes: &[u8]) -> usize {
 fn check(tape: &[u8], _ctx: &Ctx) -> Outcome {
     if tape.len() == 5 && tape[0] == 0xEE && tape[4] == 0xEE && tape[1] < 7 && tape[2] <= 4 && tape[3] <= 4 {
         return enumerate_rects(tape[1], tape[2] as u32, tape[3] as u32);
+    }
+    if tape.len() == 5 && tape[0] == 0xEE && tape[4] == 0xEE && tape[1] < 7 && (200..204).contains(&tape[2]) {
+        let (pw, ph) = [(u32::MAX, 0), (0, u32::MAX), (u32::MAX - 1, 0), (0, u32::MAX - 1)][(tape[2] - 200) as usize];
+        return enumerate_rects(tape[1], pw, ph);
     }
     if tape.len() == 26 && tape[0] == 0xED {
         let mut t = Tape::new(&tape[1..]);
